@@ -379,6 +379,12 @@ def argclass(a):
     return t
 
 
+def template_shape(tpl, marks):
+    """Shape of a format / % template: its replacement fields in order, literals dropped."""
+    import re as _re
+    return "".join(_re.findall(marks, tpl.decode("latin-1")))
+
+
 def describe(c):
     x = c.get("x")
     recv = ""
@@ -398,6 +404,8 @@ def describe(c):
     if op == "setindex":
         return "x = %s; x[%s] = %s" % (recv, args[0], args[1])
     if op == "call":
+        kw = c.get("kw") or []
+        args = args + ["%s=%s" % (vbytes(kw[i]).decode("latin-1"), show(kw[i + 1])) for i in range(0, len(kw) - 1, 2)]
         return "%s.%s(%s)" % (recv, c["name"], ", ".join(args))
     if op == "builtin":
         return "%s(%s)" % (c["name"], ", ".join(args))
@@ -445,6 +453,9 @@ def show(v):
     if t == "iter":
         lit = json.dumps(vbytes(v).decode("latin-1"))
         return ("b" + lit + ".elems()") if v["m"] == "belems" else "%s.%s()" % (lit, v["m"])
+    if t == "dict":
+        l = v.get("l", [])
+        return "{" + ", ".join("%s: %s" % (show(l[i]), show(l[i + 1])) for i in range(0, len(l) - 1, 2)) + "}"
     if t == "nil":
         return "<nil>"
     if t in ("err", "panic"):
@@ -463,6 +474,11 @@ def finding_key(c, why):
         classes = ["int-huge" if a["t"] == "int" and abs(int(a["i"])) >= (1 << 20) else k for a, k in zip(args, classes)]
         return "panic:%s%s(%s)" % (name or op, ":" + kind if op != "call" else "", ",".join(classes))
     big = any(k.startswith("int-outside") for k in classes) or (c.get("x") or {}).get("t") == "int" and argclass(c["x"]).startswith("int-outside")
+    if op == "call" and name == "format":
+        return "format:%s(%s%s)" % (template_shape(vbytes(c["x"]), r"\{\{|\}\}|\{[^{}]*\}|[{}]"), ",".join(classes),
+                                    ";" + ",".join(vbytes(k).decode("latin-1") for k in (c.get("kw") or [])[0::2]) if c.get("kw") else "")
+    if op == "bin" and name == "%":
+        return "interpolate:%s(%s)" % (template_shape(vbytes(c["x"]), r"%\([^)]*\)?.?|%.?"), classes[0] if classes else "")
     if op == "sort":
         elems = sort_elems(c) or []
         ks = [json.dumps(key_int(c.get("key", ""), e)) if key_int(c.get("key", ""), e) is not None else json.dumps(e, sort_keys=True) for e in elems]
@@ -507,8 +523,14 @@ def documented_difference(c):
                 return "empty needle in an empty sub-range: spec.md defines the sub-range as S[start:end]"
             if name in ("startswith", "endswith") and args and args[0]["t"] == "tuple" and any(e["t"] != "str" for e in args[0].get("l", [])):
                 return "tuple with a non-string element: Python type-checks the whole tuple lazily as well, but reports differently when no element matches"
-        if name == "format" and b":" in vbytes(x):
-            return "format specifiers must be empty (spec.md: reserved for future use)"
+        if name == "format":
+            tpl = vbytes(x)
+            if b":" in tpl:
+                return "format specifiers must be empty (spec.md: reserved for future use)"
+            if b"." in tpl or b"[" in tpl:
+                return "a field name is a decimal number or a keyword: no x.y / a[i] (spec.md)"
+            if b"!r" in tpl or any(quotes_inside(a, top=True) for a in args + (c.get("kw") or [])[1::2]):
+                return "repr of a string uses double quotes (and b\"...\" for bytes)"
         if name in ("strip", "lstrip", "rstrip") and tys == ["none"]:
             return "cutset parameter is a string; None is rejected"
         if name == "splitlines":
@@ -539,6 +561,16 @@ def documented_difference(c):
             return "spec.md defines concatenation for string, list and tuple only"
         if c["name"] == "%":
             a = args[0] if args else {}
+            tpl = vbytes(x)
+            elems = a.get("l", []) if a.get("t") == "tuple" else [a]
+            if b"%r" in tpl or b")r" in tpl or any(quotes_inside(e, top=True) for e in elems) or \
+                    (a.get("t") == "dict" and any(quotes_inside(e, top=True) for e in a.get("l", [])[1::2])) or \
+                    (a.get("t") == "dict" and b"%s" in tpl and a.get("l")):
+                return "repr of a string uses double quotes (and b\"...\" for bytes)"
+            if any(e.get("t") == "float" for e in elems) and any(k in tpl for k in (b"%x", b"%X", b"%o")):
+                return "%x / %X / %o accept any number (spec.md conversion table); Python requires an int"
+            if a.get("t") == "dict" and b"%(" not in tpl and not a.get("l"):
+                return "an empty dict operand with positional conversions: Python treats every mapping as the whole argument"
             if contains_bool(a):
                 return "bool is not int"
             if a.get("t") == "list":
@@ -550,6 +582,16 @@ def documented_difference(c):
     if op == "setindex" and x.get("t") == "bytes":
         return None
     return None
+
+
+def quotes_inside(v, top=False):
+    """The text of str(v) / repr(v) involves the repr of a string or bytes value."""
+    t = v.get("t")
+    if t == "bytes":
+        return True
+    if t == "str":
+        return not top
+    return any(quotes_inside(e) for e in v.get("l", []))
 
 
 def contains_bool(v):
@@ -652,7 +694,7 @@ def run(ctx):
     py_path = os.path.join(ctx.build, "tmp", "c13_py_%s.jsonl" % ctx.tier)
     with open(py_path, "w") as f:
         for c in allpy:
-            f.write(json.dumps({k: c[k] for k in ("op", "x", "name", "args", "obs", "after", "key", "rev") if k in c}) + "\n")
+            f.write(json.dumps({k: c[k] for k in ("op", "x", "name", "args", "obs", "after", "key", "rev", "kw") if k in c}) + "\n")
     pp = subprocess.run([sys.executable, os.path.join(os.path.dirname(__file__), "c13_py.py"), py_path],
                         capture_output=True, text=True, timeout=840)
     if pp.returncode != 0 or '"done"' not in pp.stdout:
